@@ -49,7 +49,10 @@ CHECKS = {
            "(the language encoding/json accepts into interface{}); nothing outside RFC 8259 is accepted whatever the range oracle; never a read outside "
            "src++[NUL], never out of fuel. Tied by ~6*10^5 model-vs-implementation verdicts per run. Valid, Decoder.Decode (whole and 1-byte readers) and six "
            "typed destinations that skip, ignore or delegate are compared with encoding/json on all strings <=4 over the 27-byte alphabet, generated texts "
-           "and their single-byte edits. Partial: the stream decoder and the typed decoders are not modelled; their recorded leniencies are open findings."),
+           "and their single-byte edits. The buffer-mode skip functions of the typed decoders (skipValue, skipObject, skipArray: one byte-at-a-time machine) are "
+           "modelled and tied by ~6*10^5 cases through RawMessage: proved complete (every value of that language is stepped over exactly, so a valid "
+           "document is never refused or read differently because a part is skipped) and proved unsound by a witness (finding SkipUnvalidated as a "
+           "theorem). Partial: the stream decoder and the other typed decoders are not modelled; their recorded leniencies are open findings."),
   'note': TB + " Oracle parameter: float_in_range (strconv.ParseFloat's range verdict) is a function parameter of the model, not an axiom.",
   'technique': 'Coq proof (acceptor model = limited RFC 8259 grammar on all inputs) + correspondence + exhaustive small-scope differential search',
  },
